@@ -351,6 +351,9 @@ pub struct Session {
     pub ops: Vec<PlannedOp>,
     /// (ordinal of spawned task, salsa event) at which to inject a panic.
     pub crashes: Vec<(u64, u64)>,
+    /// Disk faults *inside* an operation of the server: (ordinal of the `disk:*` point the main
+    /// loop reaches in this session, what happens to the disk while it is parked there).
+    pub midload: Vec<(u64, DiskOp)>,
     pub decisions: Option<Vec<String>>,
     /// Targeted delay: a task parked at the first point is not scheduled until the main loop has
     /// passed the second point after that (or nothing else can run, or 400 steps have gone by).
@@ -398,7 +401,9 @@ impl Session {
             "root": self.root,
             "tree": self.tree,
             "workload": self.ops.iter().map(|p| { let mut j = p.op.to_json(); if !p.cuts.is_empty() { j["cuts"] = json!(p.cuts); } if !p.tags.is_empty() { j["tags"] = json!(p.tags); } j }).collect::<Vec<_>>(),
-            "faults": self.crashes.iter().map(|(t, e)| json!({"kind":"crash","task":t,"at_salsa_event":e})).collect::<Vec<_>>(),
+            "faults": self.crashes.iter().map(|(t, e)| json!({"kind":"crash","task":t,"at_salsa_event":e}))
+                .chain(self.midload.iter().map(|(k, d)| json!({"kind":"disk_mid_operation","at_disk_point":k,"disk":Op::Disk(d.clone()).to_json()})))
+                .collect::<Vec<_>>(),
             "decisions": self.decisions,
             "meta": self.meta,
         })
@@ -422,6 +427,10 @@ impl Session {
                 tags: o["tags"].as_array().map(|c| c.iter().map(|x| x.as_str().unwrap_or("").to_string()).collect()).unwrap_or_default(),
             }).collect()).unwrap_or_default(),
             crashes: v["faults"].as_array().map(|a| a.iter().filter(|f| f["kind"] == "crash").map(|f| (f["task"].as_u64().unwrap_or(0), f["at_salsa_event"].as_u64().unwrap_or(0))).collect()).unwrap_or_default(),
+            midload: v["faults"].as_array().map(|a| a.iter().filter(|f| f["kind"] == "disk_mid_operation").filter_map(|f| match Op::from_json(&f["disk"]) {
+                Op::Disk(d) => Some((f["at_disk_point"].as_u64().unwrap_or(0), d)),
+                _ => None,
+            }).collect()).unwrap_or_default(),
             decisions: v["decisions"].as_array().map(|a| a.iter().map(|s| s.as_str().unwrap_or("").to_string()).collect()),
             hold: v["knobs"]["hold"].as_array().map(|a| (a[0].as_str().unwrap_or("").to_string(), a[1].as_str().unwrap_or("").to_string())),
             meta: v["meta"].clone(),
@@ -567,6 +576,8 @@ pub fn run_session(s: &Session, keep_log: bool) -> History {
         for (t, e) in &s.crashes {
             st.task_crash_plan.insert(*t, *e);
         }
+        // the loader's disk points are decision points only in sessions that plan a fault there
+        st.gate_disk_points = !s.midload.is_empty();
     });
     hooks::install(Some(Arc::new(Handle(core.clone()))));
     let pipe = Pipe::new(core.clone());
@@ -639,6 +650,9 @@ pub fn run_session(s: &Session, keep_log: bool) -> History {
     let mut closed_by_harness = false;
     let mut pending_replies: std::collections::VecDeque<Value> = std::collections::VecDeque::new();
     let mut replies_sent = 0u64;
+    // `disk:*` points the main loop has been seen at: (count, step at which it parked last)
+    let mut disk_points = 0u64;
+    let mut last_disk_park: Option<u64> = None;
 
     loop {
         let mut st = match core.wait_settled() {
@@ -688,6 +702,31 @@ pub fn run_session(s: &Session, keep_log: bool) -> History {
             h.events.push(Ev::Recv { msg, step });
         }
         st = core.lock();
+        // ---- disk fault inside an operation: the main loop is parked between two of the
+        // loader's accesses to the disk (it looked, it has not read yet)
+        if !s.midload.is_empty() {
+            let at = {
+                let t = &st.threads[&m];
+                match (&t.status, &t.point) {
+                    (Status::Parked, Some(p)) if p.kind.label().starts_with("disk:") => Some((p.kind.label(), t.parked_at_step)),
+                    _ => None,
+                }
+            };
+            if let Some((label, parked)) = at {
+                if last_disk_park != Some(parked) {
+                    last_disk_park = Some(parked);
+                    disk_points += 1;
+                    for (k, d) in &s.midload {
+                        if *k == disk_points {
+                            apply_disk(&s.root, d);
+                            *h.faults.entry("disk_mid_operation".into()).or_insert(0) += 1;
+                            *h.faults.entry(format!("disk_mid_operation@{label}")).or_insert(0) += 1;
+                            st.log(Some(0), || format!("disk fault at {label} #{disk_points}"));
+                        }
+                    }
+                }
+            }
+        }
         if st.threads[&m].status == Status::Done {
             let reason = mexit.lock().unwrap().reason.clone().unwrap_or_default();
             h.server_exit = Some((step, reason));
